@@ -41,7 +41,9 @@ pub fn run(seed: u64, ntraces: usize) {
         // the manager holds the ESDT local mint / burn roles of its token (granted by the token owner on a real chain)
         if let Some(tk) = &token { if tk != &b"EGLD".to_vec() {
             let acc = w.r.blockchain_mock.state.accounts.get_mut(&tmaddr).unwrap();
-            acc.esdt.set_roles(tk.clone(), vec![b"ESDTRoleLocalMint".to_vec(), b"ESDTRoleLocalBurn".to_vec()]); } }
+            acc.esdt.set_roles(tk.clone(), vec![b"ESDTRoleLocalMint".to_vec(), b"ESDTRoleLocalBurn".to_vec()]);
+            // ... and, unasked, the roles of a foreign token (anybody can grant them): the manager must refuse that token by itself
+            acc.esdt.set_roles(b"OTHER-abcdef".to_vec(), vec![b"ESDTRoleLocalMint".to_vec(), b"ESDTRoleLocalBurn".to_vec()]); } }
         let mut steps: Vec<Value> = vec![];
         let mut pending: Vec<AsyncCallTxData> = vec![];
         let mut limit: u64 = 0;
